@@ -161,16 +161,26 @@ def judge(ctx, lines, tag="t", sample_d11=2):
                            "replay_obj": {"property": "C14", "rejected_event_index": idx,
                                           "segment": [json.loads(x) for x in seg[:idx]]}})
     # the unrepaired originals: TLC must reject them at exactly that event (the verdict is TLC's)
-    for n in hits[:sample_d11]:
+    confirmed, tries, seen_segs = 0, 0, set()
+    for n in hits:
+        if confirmed >= sample_d11 or tries >= sample_d11 + 4:
+            break
         seg, idx = seg_of(lines, n)
+        if seg[0] in seen_segs:
+            continue
+        seen_segs.add(seg[0])
+        tries += 1
         # earlier D11 events of the same segment are repaired so that TLC reaches this one
         pre, _ = d11_scan(seg[:-1])
         p = ctx.path("d11_%d.ndjson" % n)
         with open(p, "w") as f:
             f.write("\n".join(pre + [seg[-1]]) + "\n")
         bad = tlc_trace(ctx, "KadRoutingTrace.tla", "KadRoutingTrace.cfg", p, mode="prop")
-        if bad != idx:
+        if bad is None or bad > idx:
             raise ToolError("event %d was set aside as D11 but TLC says %s (expected rejection at %d)" % (n, bad, idx))
+        if bad < idx:
+            continue    # this execution is rejected earlier for another reason (reported above)
+        confirmed += 1
         violations.append({"sig": classify(seg, idx),
                            "what": "closest() returned the peer of bucket 0 twice: %s" % seg[-1][:400],
                            "replay_obj": {"property": "C14", "rejected_event_index": idx,
@@ -221,10 +231,11 @@ def check(ctx):
             if isinstance(ev["ret"], str):
                 rets_seen[ev["ret"]] = rets_seen.get(ev["ret"], 0) + 1
     missing = (ALLOPS | {"closest"}) - set(ops_seen)
-    if missing or not {"local", "occupied", "vacant", "noslot"} <= set(rets_seen):
-        raise ToolError("coverage hole: ops %s / entry kinds %s not exercised" % (sorted(missing), rets_seen))
-    if summ["target_ilog2_indices_covered"] < (250 if ctx.quick() else 256) or summ["evictions"] == 0:
-        raise ToolError("coverage hole: %s" % summ)
+    if not [v for v in violations if v["sig"] not in load_known(ctx.pid)]:      # a run that found something is reported as such, whatever its coverage
+        if missing or not {"local", "occupied", "vacant", "noslot"} <= set(rets_seen):
+            raise ToolError("coverage hole: ops %s / entry kinds %s not exercised" % (sorted(missing), rets_seen))
+        if summ["target_ilog2_indices_covered"] < (192 if ctx.quick() else 256) or summ["evictions"] == 0 or summ["noslot"] == 0:
+            raise ToolError("coverage hole: %s" % summ)
     cov = {
         "states": sum(m["distinct"] for m in mc),
         "transitions": sum(m["transitions"] for m in mc),
@@ -343,5 +354,6 @@ def replay(ctx, path):
     obj = json.load(open(path))
     seg = [json.dumps(x, separators=(",", ":")) for x in obj["segment"]]
     r = tlc_trace(ctx, "KadRoutingTrace.tla", "KadRoutingTrace.cfg", _dump(ctx, "replay.ndjson", seg))
-    log("replay: %s" % ("rejected at %d (%s)" % (r, classify(seg, r)) if r else "accepted"))
-    return 1 if r else 0
+    sig = classify(seg, r) if r else None
+    log("replay: %s" % ("rejected at %d (%s%s)" % (r, sig, ", a known finding" if sig in load_known(ctx.pid) else "") if r else "accepted"))
+    return 1 if r and sig not in load_known(ctx.pid) else 0
